@@ -1,2 +1,171 @@
--- line-protocol driver stub (Kv); replaced when the model exists
-def main : IO Unit := IO.println "stub"
+/-
+Line-protocol driver over the key-value store model (C11).  One output line per input line.
+
+  open r|f                       fresh database, RocksDB / Fjall flavour          -> ok
+  bnew H | snew S                new write batch / serialization buffer           -> ok
+  put  b|s H ID P|S D K V        wide-column put through batch / buffer           -> ok | panic
+  del  b|s H ID P|S D K          wide-column delete                               -> ok | panic
+  ins  b|s H ID K E              insert member                                    -> ok | panic
+  rem  b|s H ID K E              delete member                                    -> ok | panic
+  consume H S                    consume_serialization_buffer                     -> ok | panic
+  commit H | drop H                                                               -> ok
+  get ID P|S D K                 get_wide_column                                  -> none | some <bytes>
+  scan ID K                      scan_members, drained, in iteration order        -> n=<k> <bytes>… | panic
+  reopen                                                                          -> ok
+  raw                            every column family, sorted: name{key=value,…};… -> dump
+  ub P                           prefix_upper_bound                               -> <bytes>
+
+Bytes are lower-case hex, `-` for the empty string; printed byte strings longer than 40 bytes are
+abbreviated to `L<len>:<fnv1a-64>`.
+-/
+import QbiceVerif.Model.KvStore
+open QbiceVerif.Kv
+
+def hexVal (c : Char) : Option Nat :=
+  if '0' ≤ c ∧ c ≤ '9' then some (c.toNat - 48)
+  else if 'a' ≤ c ∧ c ≤ 'f' then some (c.toNat - 87)
+  else none
+
+def unhexAux : List Char → List UInt8 → Option (List UInt8)
+  | [], acc => some acc.reverse
+  | [_], _ => none
+  | a :: b :: rest, acc =>
+    match hexVal a, hexVal b with
+    | some x, some y => unhexAux rest (UInt8.ofNat (16 * x + y) :: acc)
+    | _, _ => none
+
+def unhex (s : String) : Option Bytes :=
+  if s == "-" then some [] else if s.isEmpty then none else unhexAux s.toList []
+
+def hexChar (n : Nat) : Char := if n < 10 then Char.ofNat (48 + n) else Char.ofNat (87 + n)
+
+def hexFull (b : Bytes) : String :=
+  if b.isEmpty then "-" else
+  String.ofList (b.foldr (fun x acc => hexChar (x.toNat / 16) :: hexChar (x.toNat % 16) :: acc) [])
+
+def fnv (b : Bytes) : UInt64 :=
+  b.foldl (fun h x => (h ^^^ x.toUInt64) * 0x100000001b3) 0xcbf29ce484222325
+
+def hex16 (v : UInt64) : String :=
+  String.ofList ((List.range 16).map (fun i => hexChar ((v.toNat >>> (4 * (15 - i))) % 16)))
+
+def fmt (b : Bytes) : String :=
+  if b.length ≤ 40 then hexFull b else s!"L{b.length}:{hex16 (fnv b)}"
+
+def parsePl : String → Option Placement
+  | "P" => some .prefixed
+  | "S" => some .suffixed
+  | _ => none
+
+def showRes : Res → String
+  | .ok => "ok"
+  | .panic => "panic"
+  | .badHandle => "bad-op"
+
+def insStr (k : String) : List String → List String
+  | [] => [k]
+  | x :: xs => if x < k then x :: insStr k xs else k :: x :: xs
+
+def sortStr : List String → List String
+  | [] => []
+  | k :: ks => insStr k (sortStr ks)
+
+def dumpCol (c : Col) : String :=
+  let keys := sortKeys (c.map (·.1))
+  ",".intercalate (keys.map (fun k => s!"{fmt k}={fmt ((aget c k).getD [])}"))
+
+def dumpDisk (d : Disk) : String :=
+  ";".intercalate (sortStr (d.map (fun e => s!"{e.1}\{{dumpCol e.2}}")))
+
+structure St where
+  be : Backend := rocks
+  db : Db := {}
+
+def write (st : St) (mode : String) (h id : Nat) (kind : Kind) (key : Bytes) (val : Option Bytes) :
+    Option (String × St) :=
+  match mode with
+  | "b" => let (r, db) := batchWrite st.be st.db h id kind key val; some (showRes r, { st with db })
+  | "s" => let (r, db) := sbufWrite st.be st.db h id kind key val; some (showRes r, { st with db })
+  | _ => none
+
+def step (st : St) (w : List String) : Option (String × St) :=
+  match w with
+  | ["open", "r"] => some ("ok", { be := rocks, db := {} })
+  | ["open", "f"] => some ("ok", { be := fjall, db := {} })
+  | ["bnew", h] => do
+    let h ← h.toNat?
+    some ("ok", { st with db := batchNew st.db h })
+  | ["snew", s] => do
+    let s ← s.toNat?
+    some ("ok", { st with db := sbufNew st.db s })
+  | ["put", mode, h, id, pl, d, k, v] => do
+    let h ← h.toNat?; let id ← id.toNat?; let pl ← parsePl pl
+    let d ← unhex d; let k ← unhex k; let v ← unhex v
+    write st mode h id .wide (wideKey st.be.padKey pl d k) (some v)
+  | ["del", mode, h, id, pl, d, k] => do
+    let h ← h.toNat?; let id ← id.toNat?; let pl ← parsePl pl
+    let d ← unhex d; let k ← unhex k
+    write st mode h id .wide (wideKey st.be.padKey pl d k) none
+  | ["ins", mode, h, id, k, e] => do
+    let h ← h.toNat?; let id ← id.toNat?
+    let k ← unhex k; let e ← unhex e
+    write st mode h id .set (setKey k e) (some [])
+  | ["rem", mode, h, id, k, e] => do
+    let h ← h.toNat?; let id ← id.toNat?
+    let k ← unhex k; let e ← unhex e
+    write st mode h id .set (setKey k e) none
+  | ["consume", h, s] => do
+    let h ← h.toNat?; let s ← s.toNat?
+    let (r, db) := consume st.be st.db h s
+    some (showRes r, { st with db })
+  | ["commit", h] => do
+    let h ← h.toNat?
+    let (r, db) := commit st.db h
+    some (showRes r, { st with db })
+  | ["drop", h] => do
+    let h ← h.toNat?
+    let (r, db) := dropBatch st.db h
+    some (showRes r, { st with db })
+  | ["get", id, pl, d, k] => do
+    let id ← id.toNat?; let pl ← parsePl pl
+    let d ← unhex d; let k ← unhex k
+    let (r, db) := get st.be st.db id pl d k
+    some (match r with
+      | none => "panic"
+      | some none => "none"
+      | some (some v) => s!"some {fmt v}", { st with db })
+  | ["scan", id, k] => do
+    let id ← id.toNat?
+    let k ← unhex k
+    let (r, db) := scan st.be st.db id k
+    let out :=
+      match r with
+      | none => "panic"
+      | some r =>
+        if r.any Option.isNone then "panic"
+        else " ".intercalate (s!"n={r.length}" :: r.map (fun e => fmt (e.getD [])))
+    some (out, { st with db })
+  | ["reopen"] => some ("ok", { st with db := reopen st.db })
+  | ["raw"] => some (dumpDisk st.db.disk, st)
+  | ["ub", p] => do
+    let p ← unhex p
+    some (fmt (prefixUpperBound p), st)
+  | _ => none
+
+partial def loop (stdin stdout : IO.FS.Stream) (st : St) : IO Unit := do
+  let line ← stdin.getLine
+  if line.isEmpty then return
+  let w := (line.trimAscii.toString.splitOn " ").filter (· ≠ "")
+  match step st w with
+  | some (out, st') =>
+    stdout.putStrLn out
+    loop stdin stdout st'
+  | none =>
+    stdout.putStrLn "bad-op"
+    loop stdin stdout st
+
+def main : IO Unit := do
+  let stdin ← IO.getStdin
+  let stdout ← IO.getStdout
+  loop stdin stdout {}
+  stdout.flush
